@@ -377,6 +377,28 @@ def stepHttpCache (j : Json) : String :=
   let parts := go reqs 1 (HttpCache.St.empty (jInt j "max")) []
   if parts.contains "timeout" then "timeout" else String.intercalate " | " parts
 
+def optStr (j : Json) (k : String) : Option String :=
+  match j.getObjVal? k with
+  | .ok (.str s) => some s
+  | _ => none
+
+def stepCred (j : Json) : String :=
+  let c := Sites.credCfg
+  let subjects : List (Option String) := (jArr j "subjects").map fun x => match x with | .str s => some s | _ => none
+  let vp : Cred.VP :=
+    { format := match jStr j "format" with | "jwt" => .jwt | "ldp" => .ldp | _ => .other
+      kid := optStr j "kid", proofsOk := jBool j "proofsOk", nProofs := jNat j "nProofs", parsedDID := optStr j "parsedDID", subjects := subjects }
+  let shw : Res String → String := fun r => match r with
+    | .ok d => if d == "" then "ok()" else "ok(" ++ showStr d ++ ")"
+    | .err e => "err:" ++ e
+    | .panic s => "panic:" ++ siteFn s
+  let pres := match Cred.presenterIsCredentialSubject c vp with
+    | .ok none => "ok:nil"
+    | .ok (some d) => if d == "" then "ok()" else "ok(" ++ showStr d ++ ")"
+    | .err e => "err:" ++ e
+    | .panic s => "panic:" ++ siteFn s
+  s!"subj={shw (Cred.resolveSubjectDID c vp.subjects)} signer={shw (Cred.presentationSigner c vp)} presenter={pres}"
+
 def libOf (s : String) : DidWeb.Lib := if s == "ok" then .ok else if s == "panic" then .panic else .err
 
 def stepDidnutsCallback (j : Json) : String :=
@@ -411,6 +433,7 @@ def step (st : Unit) (j : Json) : Unit × List String :=
   | "didkey" => (st, [stepDidKey j])
   | "didnuts.callback" => (st, [stepDidnutsCallback j])
   | "httpcache.seq" => (st, [stepHttpCache j])
+  | "cred.presenter" => (st, [stepCred j])
   | "didweb.pct" => (st, [stepDidwebPct j])
   | "didweb.unescape" => (st, [stepDidwebUnescape j])
   | "didweb.url" => (st, [stepDidwebUrl j])
